@@ -51,7 +51,7 @@ SETTING_KEYS = ["plot_start_end_markers", "plot_axis_marker_scale", "plot_pose_c
                 "plot_show_legend", "plot_invert_xaxis", "plot_invert_yaxis", "plot_show_axis", "euler_angle_sequence"]
 RTOL = 1e-12
 
-_state = {"gen_ok": True}
+_state = {"gen_ok": True, "gen_failures": []}
 
 
 # ------------------------------------------------------------------------------------------------
@@ -59,16 +59,21 @@ _state = {"gen_ok": True}
 # ------------------------------------------------------------------------------------------------
 def regenerate(ctx):
     """Rewrite coq/generated/PlotGen.v from common.REPO only when its content changes."""
+    _state["gen_failures"] = []
     try:
         text = pyast_plot.translate(common.REPO)
     except (pyast_plot.Unsupported, SyntaxError, OSError, IndexError, KeyError) as e:
         _state["gen_ok"] = False
         if not os.path.exists(GENERATED):
             raise common.HarnessError("no generated PlotGen.v and the translation failed: %r" % (e,))
-        return [{"kind": "obligation", "failing_input": False, "correspondence": "translator pyast_plot (fail-closed)",
+        # reported by run() *after* the scenario runs (the driver lists regenerate()'s failures first): when the same
+        # edit also has a concrete failing input, that input heads the report and the broken tie follows it
+        _state["gen_failures"] = [
+                {"kind": "obligation", "failing_input": False, "correspondence": "translator pyast_plot (fail-closed)",
                  "theorem": "C20_labels_name_the_plotted_axes", "case": {"kind": "translate"},
                  "detail": "evo/tools/plot.py / evo/core/units.py can no longer be translated: %s: %s - the finite "
                            "label/index theorems are not re-established for the current source" % (type(e).__name__, e)}]
+        return []
     os.makedirs(os.path.dirname(GENERATED), exist_ok=True)
     old = open(GENERATED).read() if os.path.exists(GENERATED) else None
     if old != text:
@@ -793,6 +798,7 @@ def run(ctx, replay=None, proofs_ok=True):
         f_s, stats_s = differential(ctx, sc, imports=IMPORTS, impl=impl_scenario, expr=expr_scenario, judge=judge_scenario,
                                     shrink=shrink, nontrivial=nontrivial, tag="scen", per_file=ctx.n(16, 12))
         failures += f_s
+    failures += _state.get("gen_failures", [])     # fail-closed translation errors of regenerate(), always reported
     hist = {}
     for c in sc:
         for key in ("mode:" + c["mode"], "unit:" + c["unit"], "stamps:%s/start:%s" % (c["stamps"], c["start"]),
